@@ -167,8 +167,12 @@ class Kernel:
             return self._fire(f)
         return None
 
+    on_fire = None
+
     def _fire(self, f):
         self.fault_done = True
+        if self.on_fire is not None:
+            self.on_fire(f)
         self.ctx.fired("%s:%s:%s" % (f["kind"], f.get("when", "before"), f.get("exc", f.get("action"))))
         self.ctx.log("fault-fired", f["kind"], f["k"], f.get("when"), f.get("exc"))
         if f.get("action") == "partial":
